@@ -71,6 +71,9 @@ async def open_ws_server_transport(spec: str) -> Transport:
                 f'from {connection.remote_address}'
             )
             self.connection = connection
+            # Start framing the new client's stream from its first byte, wherever
+            # the previous client's stream was cut off.
+            self.source.parser.reset()
             # pylint: disable=no-member
             try:
                 async for packet in connection:
